@@ -1,5 +1,5 @@
 (* C01 - witnesses about superseded code (repaired by C01-fix-1, C01-fix3-3). *)
-From CfdmV Require Import Common.Base C01.Model C01.Lemmas.
+From CfdmV Require Import Common.Base C01.Model C01.Lemmas C01.RtClass.
 Open Scope string_scope.
 Open Scope list_scope.
 
@@ -26,3 +26,28 @@ Theorem C01_bounds_dimension_name_old_refuted :
     In "nv" (map fst (w_dims (snd (write_bounds (Some b) cdims cvar w)))).
 Proof. exact bounds_dimension_name_old_refuted. Qed.
 Print Assumptions C01_bounds_dimension_name_old_refuted.
+
+(* third pass, seeded variant A: the reader tests a scalar coordinate variable with _is_char instead of
+   _is_char_or_string.  A string-valued coordinate stored as a netCDF string (fmt NETCDF4, string=True) is then
+   classified as a dimension coordinate; with any other format or string=False the variant agrees with the code. *)
+Theorem C01_scalar_class_char_only_refuted :
+  (exists o sl, sl <> None /\ scalar_class_char_only (skind o sl) = CDim /\ scalar_class (skind o sl) = CAux) /\
+  (forall o sl, vlen o = false -> scalar_class_char_only (skind o sl) = scalar_class (skind o sl)).
+Proof. split; [exact scalar_class_char_only_refuted|exact scalar_class_char_only_agrees]. Qed.
+Print Assumptions C01_scalar_class_char_only_refuted.
+
+(* third pass, seeded variant B: dimension coordinates named in `coordinates' are skipped by the data variable's OWN
+   netCDF dimensions.  For data compressed by gathering the coordinate variable of a compressed dimension is then
+   read a second time, as an auxiliary coordinate; without compression the variant agrees with the code. *)
+Theorem C01_coordinates_own_dimensions_refuted :
+  (exists d v x l n, In x (v_dims v) /\ compress_of d x = Some l /\ In n l /\ is_coordvar d n <> None /\
+     In n (coord_candidates_own d v) /\ ~ In n (coord_candidates d v)) /\
+  (forall d v, has_compress d = false -> coord_candidates_own d v = coord_candidates d v).
+Proof. split; [exact coord_candidates_own_refuted|exact coord_candidates_own_agrees]. Qed.
+Print Assumptions C01_coordinates_own_dimensions_refuted.
+
+(* the string option is not irrelevant: it decides how a string-valued coordinate is stored *)
+Theorem C01_string_option_matters :
+  exists o o' f, o_coordinates o = o_coordinates o' /\ write_skel o f <> write_skel o' f.
+Proof. exists (o_of 0 true), (o_of 0 false), sc_skel. split; [reflexivity|]. vm_compute. discriminate. Qed.
+Print Assumptions C01_string_option_matters.
